@@ -48,6 +48,13 @@ def entries(rng, shape, kind):
         return rng.normal(size=shape).astype(np.float32)
     if kind == 'complex64':
         return (rng.normal(size=shape) + 1j * rng.normal(size=shape)).astype(np.complex64)
+    if kind == 'complex-be':
+        # non-native byte order (e.g. data read from a big-endian file): same values, dtype('>c16') != complex
+        return (rng.normal(size=shape) + 1j * rng.normal(size=shape)).astype('>c16')
+    if kind == 'real-be':
+        return rng.normal(size=shape).astype('>f8')
+    if kind == 'longdouble':
+        return rng.normal(size=shape).astype(np.longdouble)
     raise ValueError(kind)
 
 
@@ -475,7 +482,12 @@ def rand_bipartite(rng, maxn=60):
 def memory_layout(rng, A, how=None):
     """The same matrix in a hostile memory layout: Fortran order, a strided view into a larger buffer, a transposed view, negative strides,
     read-only. Returns (array, label); values are identical to A."""
-    how = how or str(rng.choice(['c', 'fortran', 'strided', 'transposed-view', 'negative-stride', 'readonly']))
+    how = how or str(rng.choice(['c', 'fortran', 'strided', 'transposed-view', 'negative-stride', 'readonly', 'byteswapped']))
+    if how == 'byteswapped':
+        # non-native byte order (data read from a big-endian file): identical values, but dtype('>f8') != float and dtype('>c16') != complex
+        if A.dtype.kind in 'fc' and A.dtype.itemsize in (8, 16):
+            return A.astype(A.dtype.newbyteorder('>')), how
+        return np.ascontiguousarray(A), 'c'
     if how == 'fortran':
         return np.asfortranarray(A), how
     if how == 'strided':
